@@ -23,10 +23,13 @@ BUILTIN_STRING = {
 
 
 @st.composite
-def ident(draw, used, maxlen=12):
+def ident(draw, used, maxlen=12, minlen=None):
     """a fresh identifier; lengths cover odd/even, 1 and the 40-character maximum"""
     for _ in range(50):
-        n = draw(st.sampled_from([1, 2, 3, 4, 5, 6, 7, 8, 9, maxlen, maxlen, 39, 40]) if maxlen >= 12 else st.integers(1, maxlen))
+        if minlen is not None:
+            n = draw(st.integers(minlen, maxlen))
+        else:
+            n = draw(st.sampled_from([1, 2, 3, 4, 5, 6, 7, 8, 9, maxlen, maxlen, 39, 40]) if maxlen >= 12 else st.integers(1, maxlen))
         n = min(n, 40)
         s = draw(st.sampled_from(FIRST)) + draw(st.text(alphabet=REST, min_size=n - 1, max_size=n - 1))
         if s.startswith("__") or s in RESERVED or s.lower() in used or s.startswith("ZZZZZZZZZZ") or s.isdigit():
@@ -183,7 +186,7 @@ def dims_for(draw, es, pool):
 
 
 @st.composite
-def projects(draw, size_bias=None, max_tags=10):
+def projects(draw, size_bias=None, max_tags=10, long_names=False):
     used_names, used_tids = set(), {0xFCE}
     depth_of = {"ASCIISTRING82": 0}
     udts = [dict(BUILTIN_STRING, members=[dict(m) for m in BUILTIN_STRING["members"]])]
@@ -196,7 +199,7 @@ def projects(draw, size_bias=None, max_tags=10):
     programs = []
     prog_names = set()
     for _ in range(draw(st.sampled_from([0, 0, 1, 1, 2]))):
-        pn = draw(ident(prog_names, maxlen=10))
+        pn = draw(ident(prog_names, maxlen=10)) if not long_names else draw(ident(prog_names, maxlen=40, minlen=25))
         programs.append({"name": pn, "routines": []})
     scopes = [None] + [p["name"] for p in programs]
     inst_used = {s: set() for s in scopes}
@@ -211,8 +214,8 @@ def projects(draw, size_bias=None, max_tags=10):
     pools = ["scalar", "scalar", "small", "small", "medium", "window", "huge"] if size_bias is None else size_bias
     for i in range(ntags):
         scope = draw(st.sampled_from(scopes + [None, None]))
-        name = draw(ident(tag_names[scope], maxlen=12))
-        tkind = draw(st.sampled_from(["atomic", "atomic", "udt", "udt", "string", "boolarray"]))
+        name = draw(ident(tag_names[scope], maxlen=12)) if not long_names else draw(ident(tag_names[scope], maxlen=40, minlen=30))
+        tkind = draw(st.sampled_from(["atomic", "atomic", "udt", "udt", "string", "boolarray"] if not long_names else ["atomic"]))
         pool = draw(st.sampled_from(pools))
         if tkind == "boolarray":
             typ = "DWORD"
